@@ -19,6 +19,8 @@ import (
 	"fmt"
 	"os"
 	"path/filepath"
+	"strconv"
+	"strings"
 	"time"
 
 	"github.com/metal-toolbox/audito-maldito/internal/verifharness/hutil"
@@ -66,6 +68,9 @@ func record(sum *hutil.Summary, r result) {
 }
 
 func describe(r result) string {
+	if r.Prop == "C07" {
+		return r.Detail
+	}
 	if r.Prop == "C13" && r.Scenario == "sibling-failure" {
 		return fmt.Sprintf("daemon still running %v after a sibling worker failed (%s) while the sshd worker was handing logins to the correlator: a worker did not return although its (group) context was cancelled", c08Bound, r.Variant)
 	}
@@ -90,9 +95,10 @@ func describe(r result) string {
 
 func main() {
 	out := flag.String("out", "", "output directory")
-	prop := flag.String("prop", "C13", "C13 | C08")
+	prop := flag.String("prop", "C13", "C13 | C08 | C07 (slow-consumer framing stage)")
 	n := flag.Int("n", 0, "C13: repetitions of the racy scenario read-busy (default 30); C08: repetitions of the matrix (default 1)")
 	replay := flag.String("replay", "", "replay file")
+	delaysFlag := flag.String("delays", "150,700,2500", "C07: how long (ms) nobody receives from the logins channel after the record arrived")
 	flag.Parse()
 	seed := hutil.SeedFromEnv()
 	if *out == "" {
@@ -127,6 +133,16 @@ func main() {
 		}
 		runC13(sum, tmp, reps, seed)
 		sum.Notes = append(sum.Notes, c13Notes...)
+	case "C07":
+		sum = hutil.NewSummary("C07", seed, "framed vs direct with a slow consumer of logins (c07_slow.go): each login form of the four hand-off selects, a failure line and an unrecognised line, handed over directly / through SyslogIngester.Process / through a real FIFO + SyslogIngester.Ingest "+
+			"while nobody receives from the unbuffered logins channel for the given delay; non-trivial: all three paths were observed until they returned")
+		var delays []int
+		for _, f := range strings.Split(*delaysFlag, ",") {
+			if d, err := strconv.Atoi(strings.TrimSpace(f)); err == nil && d >= 0 {
+				delays = append(delays, d)
+			}
+		}
+		runC07Slow(sum, tmp, delays)
 	case "C08":
 		sum = hutil.NewSummary("C08", seed, "non-trivial: the daemon was started from the built binary and the failure cause was injected (idle, or after the audit writer had been flooding the pipe; "+
 			"scenarios opt:<flags>:<clients>: the daemon started with a flag valuation that switches optional workers on - HTTP server for /metrics and /readyz, its stop worker, the audit.log ticker - and HTTP clients "+
@@ -176,6 +192,14 @@ func doReplay(path, tmp string) int {
 	}
 	var rs []result
 	switch doc.Prop {
+	case "C07":
+		form, d, pad, ok := parseC07Variant(doc.Variant)
+		if !ok {
+			fmt.Println("replay file names no slow-consumer case:", doc.Variant)
+			return 2
+		}
+		r, _ := runC07Case(tmp, form, d, pad)
+		rs = append(rs, r)
 	case "C13":
 		reps := 1
 		if doc.Scenario == "read-busy" {
